@@ -205,6 +205,19 @@ def run_shard(i, n, tier, seed, m):
         if len(m.samples) < 3 and (k // n) % 211 == 0:
             m.samples.append({**case, "text": build_text(case)})
         judge(case, m)
+    # the same variable plain in one interaction and through a call in another one (x and np.exp(x) are two numerics)
+    same_var = [([["f", "x"], ["f", "xe"]], {"xe": "np.exp(x)"}), ([["x", "z"], ["x", "ze"]], {"ze": "np.exp(z / 4)"}),
+                ([["f"], ["f", "x"], ["f", "xe"]], {"xe": "np.exp(x)"}), ([["x"], ["f", "x"], ["g", "xe"], ["f", "g", "xe"]], {"xe": "I(x ** 3)"}),
+                ([["f", "g", "x"], ["f", "g", "xe"], ["f", "g"]], {"xe": "np.abs(x)"})]
+    for j, (fam, atoms) in enumerate(same_var):
+        for intercept in (True, False):
+            if (2 * j + intercept) % n != i:
+                continue
+            case = finish_case({"terms": [list(t) for t in fam], "intercept": intercept, "atoms": dict(atoms)}, 900000 + j, seed)
+            text = build_text(case)
+            m.case({**case, "text": text}, canon=[text, case["levels"]], nontrivial=True)
+            m.cls("same-variable-twice")
+            judge(case, m)
     # sampled: shuffled factor order, atom variants, z, C(k), 4-term families
     rng = random.Random(seed * 1000003 + i * 31 + 3)
     nrand = (4000 if tier == "quick" else 60000) // n
